@@ -70,3 +70,11 @@ def dist(programs):
     if programs:
         d["ops_per_program"] = round(d["ops_per_program"] / len(programs), 2)
     return d
+
+
+def carrier(obs):
+    """a minimal valid program that carries oracles which build their own models"""
+    return {"times": ["0", "2", "1"], "comps": ["A", "B"], "inf": ["B"],
+            "ops": [{"op": "pop", "dist": {"A": "7", "B": "3"}},
+                    {"op": "flow", "kind": "transition", "name": "ab", "param": "1/4", "src": "A", "dst": "B"}],
+            "obs": obs, "meta": {"flows": ["transition"]}, "nonlinear": False}
